@@ -238,7 +238,7 @@ class C14(Check):
                    'del_map is not part of the property (the quantifier does not list it) and is only exercised through group_by in (b)']
     ANCHORS = ['rxsci/state/memory_store.py', 'rxsci/state/store.py']
     REQUIRED_TAGS = ['dtype=int', 'dtype=uint', 'dtype=float', 'dtype=bool', 'dtype=obj', 'dtype=mapper', 'default', 'no-default',
-                     'direct', 'manager', 'sparse', 'descending', 'pipeline', 'wide', 'far', 'stepwise-walk', 'abandoned-walk', 'type-names-built-at-run-time']
+                     'direct', 'manager', 'sparse', 'descending', 'pipeline', 'wide', 'far', 'stepwise-walk', 'abandoned-walk', 'type-names-built-at-run-time', 'large-maps']
     REQUIRED_OBSERVED = ['walk_steps', 'untouched_slots_checked_in_walks', 'store.add_key', 'store.set', 'store.get', 'store.del_key', 'store.iterate',
                          'store.add_map', 'store.get_map', 'store.iterate_map', 'slot_rereads']
 
@@ -249,6 +249,12 @@ class C14(Check):
         pnames = sorted(_pipelines())
         h = -1
         for k in range(n):
+            if k % 130 == 7:
+                # large group-index maps: one outer key maps thousands of groups in a row, is deleted while another is alive, and more
+                # groups are mapped afterwards than it had (light form: the handed-out indices are checked against a set)
+                a = rng.choice([4096, 5000, 6000])
+                yield {'kind': 'bigmap', 'first': a, 'second': rng.choice([3, 10, 300]), 'then': a + rng.choice([1, 1000]), 'reopen': bool(k // 130 % 2)}
+                continue
             if k % 6 == 5:
                 yield {'kind': 'pipeline', 'name': pnames[(k // 6) % len(pnames)],
                        'items': sorted(rng.randint(0, 40) for _ in range(rng.randint(0, 40))) if 'time' in pnames[(k // 6) % len(pnames)]
@@ -281,6 +287,8 @@ class C14(Check):
         ShadowMemoryStore.shared_sink = sink
         ShadowMemoryStore.stats = stats
         try:
+            if case['kind'] == 'bigmap':
+                return self._eval_bigmap(case, out)
             if case['kind'] == 'pipeline':
                 self._eval_pipeline(case, out, stats)
             else:
@@ -291,6 +299,59 @@ class C14(Check):
         out.observed.update(stats)
         for dev in sink[:3]:
             out.fail('store-deviates-from-map-model', **dev)
+        return out
+
+    def _eval_bigmap(self, case, out):
+        from rxsci.state.memory_store import MemoryStore
+        out.tags += ['dtype=mapper', 'large-maps']
+        out.nontrivial = True
+        st = MemoryStore(name='m', data_type='mapper')
+        in_use = {}                      # index -> (outer, map key)
+        maps = {0: {}, 1: {}, 2: {}}
+
+        def add(outer, mk):
+            idx = st.add_map((outer, (0,)), mk)
+            out.observed['store.add_map'] += 1
+            if idx in in_use:
+                out.fail('add_map: handed out an index that is still in use', index=idx, held_by=repr(in_use[idx]), new=repr((outer, mk)))
+                return False
+            in_use[idx] = (outer, mk)
+            maps[outer][mk] = idx
+            return True
+
+        def drop(outer):
+            # what group_by does when the outer key completes
+            for mk in list(st.iterate_map((outer, (0,)))):
+                st.del_map((outer, (0,)), mk)
+            st.del_key((outer, (0,)))
+            for mk, idx in maps[outer].items():
+                in_use.pop(idx, None)
+            maps[outer] = {}
+        st.add_key((0, (0,)))
+        st.add_key((1, (0,)))
+        for j in range(case['first']):
+            if not add(0, 'user-%d' % j):
+                return out
+        for j in range(case['second']):
+            if not add(1, ('b', j)):
+                return out
+        drop(0)
+        target = 0 if case['reopen'] else 2
+        st.add_key((target, (0,)))
+        for j in range(case['then']):
+            if not add(target, 'user-%d' % (j + 7)):
+                return out
+        # every mapped key still reads its index; enumeration is exact
+        for outer in (1, target):
+            got = list(st.iterate_map((outer, (0,))))
+            if sorted(map(repr, got)) != sorted(map(repr, maps[outer])):
+                out.fail('iterate_map: keys differ from the mapped keys', outer=outer, n_got=len(got), n_want=len(maps[outer]))
+                return out
+            for mk, idx in list(maps[outer].items())[:: max(1, len(maps[outer]) // 50)]:
+                if st.get_map((outer, (0,)), mk) != idx:
+                    out.fail('get_map: wrong index', outer=outer, map_key=repr(mk), want=idx, got=repr(st.get_map((outer, (0,)), mk)))
+                    return out
+        out.observed['slot_rereads'] += 100
         return out
 
     def _eval_pipeline(self, case, out, stats):
@@ -454,6 +515,8 @@ class C14(Check):
         return False
 
     def shrink(self, case):
+        if case['kind'] == 'bigmap':
+            return
         if case['kind'] != 'history':
             its = case['items']
             for k in range(len(its)):
